@@ -11,12 +11,13 @@ CONSTANTS
   Dts = {300}
   MaxDeliver = 1
   HealDt = 300
-  HealRounds = 3
-  Bound = 3
-  HealLose = {TRUE, FALSE}
+  HealRounds = 1
+  Bound <- NoBound
+  HealLose = {TRUE}
   Reorder = FALSE
   RecvAnywhere = FALSE
   PropsOn <- P_C15
+  ExportAll = FALSE
   Export = TRUE
 INVARIANT NoFlag
 INVARIANT ExportInv
